@@ -1048,6 +1048,10 @@ func (agg *aggregate) Process(ctx context.Context, man gdbi.Manager, in gdbi.InP
 					}
 				}
 				sort.Float64s(fieldValues)
+				if len(fieldValues) == 0 {
+					//nothing to bin: no row carried the field
+					return outErr
+				}
 				min := fieldValues[0]
 				max := fieldValues[len(fieldValues)-1]
 
